@@ -68,7 +68,7 @@ Definition results_of_jv (v : jv) (g : which) : option (list (list tag)) :=
 Definition jphase (p : rphase) : jv :=
   match p with RDone None => JNull | RDone (Some e) => JStr e | _ => JStr (pys "running") end.
 Definition writer_status (k : list instr) : jv :=
-  match k with [] => JStr (pys "done") | [IRaise] => JStr (pys "raised") | _ => JStr (pys "running") end.
+  match k with [] => JStr (pys "done") | IRaise :: _ => JStr (pys "raised") | _ => JStr (pys "running") end.
 
 (* case {old_allow, old_deny, allow_events|null, deny_events|null, initial, readers, sched}
    -> {readers: outcomes, allow, deny, writer} after the schedule followed by the drain *)
